@@ -58,7 +58,7 @@ def presets(ctx):
     P = [
         ("bfs-one-metric", dict(mm=1, ml=2, mk=1, mo=1, names=["foo", "a-b", "in valid"], kts=expo.KT_ALL,
                                 keys=["k1", "prog", "k-x"], lvals=["a", "esc", "nonutf8"], itoks=["small"], ftoks=["nan"],
-                                bounds=["b12"], obs=[0, 3]), None, None),
+                                bounds=["b12"], obs=[0, 3], epoch=True), None, None),
         ("bfs-values", dict(mm=1, ml=1, mk=0, mo=2, names=["foo"], kts=expo.KT_SCALAR + ["HistogramBuckets"],
                             itoks=expo.INT_TOKS, ftoks=expo.FLOAT_TOKS, bounds=["b12", "b0510", "none"], obs=[0, 2, 7]), None, None),
         ("bfs-families", dict(mm=2, ml=1, mk=1, mo=1, names=["foo", "a-b"], progs=["p1", "p2"],
@@ -66,7 +66,7 @@ def presets(ctx):
         ("bfs-shared-names", SHARED, None, None),
     ]
     sim = dict(mm=3, ml=3, mk=2, mo=3, names=NAMES, progs=["p1", "p2"], kts=expo.KT_ALL, keys=KEYS, lvals=LVALS,
-               itoks=expo.INT_TOKS, ftoks=expo.FLOAT_TOKS, bounds=["b12", "b0510", "none"], obs=[0, 1, 2, 3, 7, 11])
+               itoks=expo.INT_TOKS, ftoks=expo.FLOAT_TOKS, bounds=["b12", "b0510", "none"], obs=[0, 1, 2, 3, 7, 11], epoch=True)
     if ctx.thorough:
         P.append(("bfs-one-metric-wide", dict(mm=1, ml=2, mk=1, mo=2, names=["foo", "a-b", "in valid"], kts=expo.KT_ALL,
                                               keys=["k1", "prog", "k-x"], lvals=["a", "esc", "nonutf8"], itoks=["neg", "huge"],
